@@ -156,33 +156,41 @@ def run(chk):
     scheds = sorted(set(tuple(b["steps"]) for b in beh))
     inter = [s for s in scheds if overlaps(s)]
     rest = [s for s in scheds if not overlaps(s)]
-    # stratify: the class of an interleaving is the set of (query step after which it happens, writer step) pairs, so that
-    # every window between two query steps is forced with every writer step, not only the frequent ones
-    def klass(st):
-        last, out = "", set()
+    # stratify.  The class of an interleaving for a query form is the set of (window, writer step) pairs, a window being the
+    # point at which the REAL query of that form is parked when the writer step happens (a form that never reaches a point
+    # is parked at the last one it does reach, and is finished after its last one), so that every window of every form is
+    # forced with every writer step.
+    order = ["q.snapU", "q.snapR", "q.check", "q.plan", "q.open", "q.fetch"]
+    park = {"records": dict(zip(order, order)), "filter": dict(zip(order, order)),
+            "count_by": {**dict(zip(order[:5], order[:5])), "q.fetch": None},
+            "sum_by": {**dict(zip(order[:5], order[:5])), "q.fetch": None},
+            "count_max": {"q.snapU": "q.snapU", "q.snapR": "q.snapR", "q.check": "q.open", "q.plan": "q.open", "q.open": "q.open", "q.fetch": None},
+            "count": {"q.snapU": "q.snapU", "q.snapR": "q.snapR", "q.check": None, "q.plan": None, "q.open": None, "q.fetch": None}}
+
+    def klass(st, kind):
+        last, out = None, set()
         for x in st:
             if x.startswith("q."):
-                last = x
-            elif last and last != "q.search" and x in ("flush.vis", "rot.meta", "rot.remove"):
+                last = park[kind].get(x) if x != "q.search" else None
+            elif last and x in ("flush.vis", "rot.meta", "rot.remove"):
                 out.add((last, x))
         return tuple(sorted(out))
-    by_class = {}
-    for st in inter:
-        by_class.setdefault(klass(st), []).append(st)
-    per = 2 if quick else 12
-    strat = []
-    for k in sorted(by_class):
-        strat += vlib.sample(by_class[k], per, chk.seed)
-    chk.cov["interleaving_classes"] = len(by_class)
-    if quick:
-        strat = vlib.sample(strat, 150, chk.seed)
-        todo = strat + vlib.sample(inter, 40, chk.seed) + vlib.sample(rest, 10, chk.seed)
-    else:
-        todo = strat + vlib.sample(inter, 1500, chk.seed) + vlib.sample(rest, 100, chk.seed)
     rnd = random.Random(chk.seed)
-    jobs = [(s, FORMS[(i + chk.seed) % len(FORMS)]) for i, s in enumerate(todo)]
-    if not quick:
-        jobs += [(s, rnd.choice(FORMS)) for s in vlib.sample(inter, 1200, chk.seed + 1)]
+    jobs = []
+    ncls = {}
+    for form in FORMS:
+        by_class = {}
+        for st in inter:
+            by_class.setdefault(klass(st, form[1]), []).append(st)
+        ncls[form[1]] = len(by_class)
+        small = sorted(k for k in by_class if 1 <= len(k) <= 2)
+        big = sorted(k for k in by_class if len(k) > 2)
+        per = 1 if quick else 6
+        for k in small + vlib.sample(big, 12 if quick else len(big), chk.seed):
+            jobs += [(st, form) for st in vlib.sample(by_class[k], per if k in small or quick else 2, chk.seed)]
+    chk.cov["interleaving_classes"] = ncls
+    extra = vlib.sample(inter, 30 if quick else 1500, chk.seed) + vlib.sample(rest, 10 if quick else 100, chk.seed)
+    jobs += [(st, FORMS[(i + chk.seed) % len(FORMS)]) for i, st in enumerate(extra)]
     binary = vlib.build_driver()
 
     def one(job):
